@@ -234,19 +234,36 @@ def explore(prop, binary, feats, seed, runs):
     return st, samples_of(hot), hot_s
 
 
-def miri_pass(prop, workloads, schedules, seed0):
+def miri_pass(prop, workloads, schedules, seed0, native):
     """Interleavings inside calls: caller threads free-run overlapping in-domain calls under Miri.
     One interpreter process per (workload seed, scheduler seed); up to 16 at a time (Miri's own
-    -Zmiri-many-seeds shares one process and scales badly here)."""
+    -Zmiri-many-seeds shares one process and scales badly here).
+    Reference values: each workload's calls are first made natively, alone, in a fresh
+    single-threaded process (`--reference-only`); the interpreter runs get their hashes
+    (`--expect-ref`). Even scheduler seeds run cold (`--warm 0`: no call before the threads
+    start, so threads meet every lazily initialised table or memo untouched), odd ones warm
+    (`--warm 1`: the main thread makes every call once first). In both, every concurrent
+    result must equal the native reference, the main thread's result after the race, and
+    (warm) its result before it."""
     import concurrent.futures
     if subprocess.run(["cargo", "+nightly", "miri", "--version"], capture_output=True).returncode != 0:
         die("thorough tier needs cargo +nightly miri")
     base_env = dict(os.environ, CARGO_TARGET_DIR=os.path.join(CACHE, "miri_target"), CARGO_NET_OFFLINE="true")
 
+    refs = {}
+    for ws in range(seed0, seed0 + workloads):
+        rc, out = sim(native, ["parallel", "--property", prop, "--seed", str(ws), "--reference-only"])
+        m = re.search(r"^REFERENCE (\S+)$", out, re.M)
+        if rc != 0 or not m:
+            die(f"native reference for race workload {ws} failed")
+        refs[ws] = m.group(1)
+
+    def args_of(ws, sched):
+        return ["parallel", "--property", prop, "--seed", str(ws), "--warm", str(sched % 2), "--expect-ref", refs[ws]]
+
     def one(ws, sched):
         env = dict(base_env, MIRIFLAGS=f"-Zmiri-seed={sched} -Zmiri-preemption-rate=0.05")
-        cmd = ["cargo", "+nightly", "miri", "run", "--offline", "--manifest-path", os.path.join(SIM, "Cargo.toml"), "--",
-               "parallel", "--property", prop, "--seed", str(ws)]
+        cmd = ["cargo", "+nightly", "miri", "run", "--offline", "--manifest-path", os.path.join(SIM, "Cargo.toml"), "--"] + args_of(ws, sched)
         r = subprocess.run(cmd, env=env, capture_output=True, text=True)
         return ws, sched, r.returncode, r.stdout + r.stderr
 
@@ -260,7 +277,7 @@ def miri_pass(prop, workloads, schedules, seed0):
         if rc != 0:
             if re.search(r"SCHEDULE-DEPENDENT|Undefined Behavior|Data race", out):
                 i = min(x for x in (out.find("SCHEDULE-DEPENDENT"), out.find("Undefined Behavior"), out.find("Data race")) if x >= 0)
-                args = ["parallel", "--property", prop, "--seed", str(ws)]
+                args = args_of(ws, sched)
                 path = write_replay(prop, f"miri_workload{ws}_schedule{sched}", args, "full", out[i:i + 3000] + "\n",
                                     kind=f"miri -Zmiri-seed={sched} -Zmiri-preemption-rate=0.05")
                 raise Violation(path, f"value depends on how caller threads interleave inside calls (workload seed {ws}, scheduler seed {sched})")
@@ -350,7 +367,7 @@ def main():
                 if len(samples) < 3:
                     samples += smp
         if tier == "thorough" or miri_only:
-            miri_execs = miri_pass(prop, int(os.environ.get("MIRI_WORKLOADS", "16")), int(os.environ.get("MIRI_SCHEDULES", "16")), seed)
+            miri_execs = miri_pass(prop, int(os.environ.get("MIRI_WORKLOADS", "16")), int(os.environ.get("MIRI_SCHEDULES", "16")), seed, feature_sets[0][1])
     except Violation as v:
         violation = v
     wall = time.time() - t0
@@ -386,6 +403,10 @@ def main():
                 "calls_on_a_thread_after_it_caught_a_panic": total.get("calls_after_fault_same_thread", 0),
                 "in_domain_keys_seen_before_and_after_a_caught_panic_on_one_thread": total.get("keys_before_and_after_fault", 0),
                 "callback_invocations": total.get("callback_invocations", 0),
+                "lazy_iterator_held_across_other_calls_then_drained": total.get("iterators_held_then_drained", 0),
+                "lazy_iterator_dropped_undrained": total.get("iterators_dropped_undrained", 0),
+                "calls_made_while_an_iterator_of_the_same_thread_was_held": total.get("calls_made_while_iterator_held", 0),
+                "reentrant_library_calls_made_from_inside_caller_supplied_code": total.get("reentrant_calls_from_caller_code", 0),
             },
             "interleavings": {
                 "distinct_call_orders": total.get("distinct_call_orders", 0),
